@@ -596,7 +596,9 @@ func hashAlgFor(devicePubKey, ownerPubKey crypto.PublicKey) (protocol.HashAlg, e
 	case 384:
 		return protocol.Sha384Hash, nil
 	default:
-		panic("only hash sizes of 256 and 384 are included in FDO")
+		// Key sizes come from the peer (device certificate request, keys in
+		// DI.SetCredentials and TO2.SetupDevice)
+		return 0, fmt.Errorf("unsupported key size: only hash sizes of 256 and 384 are included in FDO")
 	}
 }
 
